@@ -3,27 +3,30 @@ from engine import Query
 ASSUMPTIONS = ["inductive step: the pre-state is ANY triple of arrays satisfying the representation invariant (leaf/link encoding with even child pairs below their parent, parent map, counts = sum of children, "
                "non-decreasing counts, each symbol on exactly one leaf, root count < 65535), for a concrete symbol count n; the updated symbol is symbolic",
                "the invariant is cross-checked for reachability: it holds for the constructor's tree and along all symbolic update sequences of length K from it"]
-OUTSIDE = ["symbol counts above the stated n (the 314-symbol tree of the format runs the same functions; n is a constructor argument)", "counter values are full 16-bit, so long histories are covered by the induction, not by running them"]
+OUTSIDE = ["the inductive step for n >= 4 (no verdict within 30 minutes)", "symbol counts above the stated n (the 314-symbol tree of the format runs the same functions; n is a constructor argument)", "counter values are full 16-bit, so long histories are covered by the induction, not by running them"]
 LEVEL_TEXT = ("Bounded model checking as a one-step induction: from every valid tree of n symbols (all counts, all shapes) one update with any symbol yields a valid tree identical to an independent reference update; "
               "hence every history within capacity is covered for that n. Encoder/decoder agreement and refusals are decided on the same arbitrary trees.")
-LEVEL_NOTE = "inductive step: n = 2 in the quick tier, 2..6 thorough (n = 3 takes 17 minutes of SAT time, larger n may hit the per-query cap and is then reported inconclusive); encoder/decoder and refusal queries n = 2..4; update sequences from the constructor tree up to n = 4."
+LEVEL_NOTE = "inductive step: n = 2 in the quick tier, n = 2 and 3 thorough (n = 3 takes 17 minutes of SAT time, n = 4 gave no verdict in 30 minutes and is not run); encoder/decoder and refusal queries n = 2..4; update sequences from the constructor tree up to n = 4."
 
 
 def queries(tier):
     qs = []
     ns = (2, 3, 4) if tier == "quick" else (2, 3, 4, 5, 6)
     for n in ns:
-        if not (tier == "quick" and n > 2):      # measured: n=2 76 s, n=3 17 to 27 min, n=4 > 30 min (SAT time; the step query is the expensive one)
+        if n == 2 or (tier == "thorough" and n == 3):      # measured: n=2 76 s, n=3 17 to 27 min, n=4 no verdict in 30 min (SAT time) - not run
             qs.append(Query("update_step_n%d" % n, "C15_huffman.cpp", "h_update_step", {"NSYM": n}, unwind=4 * n + 8, timeout=1800 if n < 4 else 7200,
                         cbmc_opts=(["--sat-solver", "cadical"] if n > 2 else []),
                         desc="one UpdateCodeCount(symbolic symbol) from an arbitrary valid tree of %d symbols: invariant preserved, root and leaf counts +1, tree equals the reference update" % n))
-        qs.append(Query("encode_decode_n%d" % n, "C15_huffman.cpp", "h_encode_decode", {"NSYM": n}, unwind=4 * n + 8, timeout=1800,
+        qs.append(Query("encode_decode_n%d" % n, "C15_huffman.cpp", "h_encode_decode", {"NSYM": n}, unwind=8 * n + 20, timeout=1800,
                         desc="on an arbitrary valid tree of %d symbols the encoder's bit string for a symbolic symbol leads the decoder's walk to that symbol's leaf" % n))
+    if tier == "thorough":
+        qs.append(Query("encode_decode_n8", "C15_huffman.cpp", "h_encode_decode", {"NSYM": 8}, unwind=8 * 8 + 20, timeout=1800,
+                        desc="encoder/decoder agreement on an arbitrary valid tree of 8 symbols (measured 250 s)"))
     n = 3
     for r, rn in enumerate(["update at root count 65535", "out-of-range symbol in UpdateCodeCount", "out-of-range symbol in GetEncodedBitString", "out-of-range node in GetChildNode/IsLeaf/GetNodeData"]):
         qs.append(Query("refuse_%d_n%d" % (r, n), "C15_huffman.cpp", "h_refuse", {"NSYM": n, "REFUSE": r}, unwind=4 * n + 8, timeout=900,
                         desc="%s on an arbitrary valid tree of %d symbols: refused with an error, tree unchanged" % (rn, n)))
-    for n, k in ((2, 4), (3, 3), (4, 3)) if tier == "quick" else ((2, 6), (3, 5), (4, 4), (6, 4)):
-        qs.append(Query("sequence_n%d_k%d" % (n, k), "C15_huffman.cpp", "h_sequence", {"NSYM": n, "KSEQ": k}, unwind=4 * n + 8, timeout=1800,
+    for n, k in ((2, 4), (3, 3), (4, 3)) if tier == "quick" else ((2, 6), (3, 5), (4, 4)):
+        qs.append(Query("sequence_n%d_k%d" % (n, k), "C15_huffman.cpp", "h_sequence", {"NSYM": n, "KSEQ": k}, unwind=8 * n + 20, timeout=1800,
                         desc="all sequences of %d symbolic updates from the constructor's %d-symbol tree keep the invariant" % (k, n)))
     return qs
